@@ -3,6 +3,7 @@ package main
 import (
 	"fmt"
 	"go/types"
+	"strings"
 
 	"golang.org/x/tools/go/ssa"
 
@@ -21,6 +22,8 @@ const (
 )
 
 func runC14(p *Program, r *Report) {
+	engineConsistency(p, r, "C14.E", func(n string) bool { return strings.Contains(n, "") })
+
 	r.Trusted = []string{"go/types + go/ssa", "regexp/syntax semantics as modelled by relang", "html.UnescapeString decodes character references (the decoded prefix is treated as a string of its own)", "C11 for the URL guard", "paper: the browser-level reading of the attribute value needs C01"}
 	r.NotDecided = []string{"the decoded attribute value as the browser finally sees it (needs C01)"}
 	r.Explain = "Byte decision tables of urlProcessor in both modes over all 256 bytes (normalisation copies only unreserved/reserved URL characters and valid %XX triplets, everything else — quotes, angle brackets, space, controls, backslash, non-ASCII — is escaped; idempotence follows from the tables); the prefix validators' nil-error path conditions are regular languages over the raw and the decoded prefix and exclude whitespace/controls, partial character references, partial percent escapes, and (URL class) prefixes that are neither a safe full scheme nor contain one of / ? #, (TrustedResourceURL class) anything outside the four trusted prefixes; the substitution validator rejects every input with two adjacent dot units; the sanitizer chain chosen per prefix class."
